@@ -539,6 +539,19 @@ func genTxn(t *rapid.T, m *Model, recent []uint32, cfg TxnCfg) TxnSpec {
 			}
 		}
 	}
+	// the body may start by narrowing its selection (filter first, then point and key operations)
+	if cfg.Peeks && len(spec.Steps) > 0 && rapid.IntRange(0, 5).Draw(t, "prefilter") == 0 {
+		ok := true
+		for _, st := range spec.Steps {
+			if st.Kind == SDelete {
+				ok = false
+			}
+		}
+		ci := rapid.IntRange(0, len(m.Sch.Cols)-1).Draw(t, "prefilter-col")
+		if ok && m.ColLive[ci] && m.Sch.Cols[ci].Kind != KKey {
+			spec.Prefilter = ci + 1
+		}
+	}
 	// the body may end by obtaining typed column accessors that it only reads (txn.Int64("limit").Get()):
 	// an accessor allocates the transaction's buffer for that column, which then stays empty
 	if cfg.Peeks && spec.FailAt < 0 && rapid.IntRange(0, 3).Draw(t, "tail-accessors") == 0 {
